@@ -93,6 +93,8 @@ func checkC17(c *Ctx) {
 			}
 			cm := call.Common()
 			switch {
+			case isLogCall(call):
+				// a log line changes neither effect nor result of the forwarded operation
 			case cm.StaticCallee() == getTE && getTE != nil:
 				lookups = append(lookups, call)
 			case cm.IsInvoke() && namedOf(cm.Value.Type()) != nil && namedOf(cm.Value.Type()).Obj().Name() == "TableEngine":
